@@ -7,6 +7,8 @@ import (
 	"go/types"
 	"os"
 	"regexp"
+	"runtime"
+	"runtime/debug"
 	"sort"
 	"strings"
 
@@ -79,6 +81,11 @@ type LoadConfig struct {
 // loadWorld loads the tree, normalises it (renames, helper expansion) and — when an anchored function is gone —
 // tries the re-outlining pass of reoutline.go.
 func loadWorld(cfg LoadConfig) (*World, error) {
+	// per-program caches must not keep earlier programs alive (the thorough tier loads dozens of variants in one process)
+	getterMemo = map[*ssa.Function][]string{}
+	getterBusy = map[*ssa.Function]bool{}
+	runtime.GC()
+	debug.FreeOSMemory()
 	fieldAlias = map[*types.Var]string{}
 	aliasOldName = map[types.Object]string{}
 	aliasNewName = map[string]string{}
